@@ -275,6 +275,23 @@ var c10Corpus = []string{
 	"T[L1.1[E1];R;E2][E3];E4",
 	"T[L1.3[L2.2[E1]];R;E2][E3];E4",
 	"L1.2[T[L2.2[T[K][E1]];B][E2]];R",
+	// an iteration left from a CATCH block (or try body) two or more try levels down; the enclosing
+	// try statements then complete and the outermost body fails again
+	"T[T[L1.3[T[R;E1][E2;B];E3];E4][E5];E6;R;E7][E8];E9",
+	"T[T[L1.3[T[R;E1][E2;K];E3];E4][E5];E6;R;E7][E8];E9",
+	"T[T[L1.3[T[E1;B][E2];E3];E4][E5];E6;R;E7][E8];E9",
+	"T[T[L1.2[T[E1;K][E2];E3];E4][E5];E6;R;E7][E8];E9",
+	"T[T[L1.3[T[R][E2;K]];E4;R;E5][E6];E7;R;E8][E9];E10",
+	"T[T[T[L1.2[T[R][E1;B]];E2][E3];E4;R;E5][E6];E7;R;E8][E9];E10",
+	"T[T[L1.2[L2.2[T[R][E1;K];E2];T[R][E3;B]];E4][E5];R;E6][E7];E8",
+	"T[T[L1.2[T[T[R][E1;R;E2]][E3;B]];E4][E5];E6;R][E7];E8",
+	"T[T[L1.2[T[R][T[R][E1;K]];E2];E3][E4];R;E5][E6];E7",
+	"T[T[R][E1;L1.2[T[R][E2;B]];E3];E4;R;E5][E6];E7",
+	"T[L1.2[T[L2.2[T[R][E1;K]];E2][E3];R;E4];E5;R][E6];E7",
+	"T[T[L1.3[T[R][E1;K]];E2][E3];T[E4;R][E5];R;E6][E7];E8",
+	"T[C1;E1;R;E2][E3];E4|T[T[L1.2[T[R][E10;B]];E11][E12];E13;R;E14][E15];E16",
+	"D[E1];T[T[L1.2[T[R][E2;K];E3];E4][E5];D[E6];R;E7][E8];E9",
+	"T[T[L1.2[T[R][E1;X]];E2][E3];R;E4][E5];E6",
 	"D[E1];D[V;E2];D[E3];E4;P7;E5",
 	"C1;E9|D[V;E2];C2;E3|D[E4];P8;E5",
 	"D[E1];D[E2;P9];D[E3];P7",
@@ -415,6 +432,11 @@ func TestVerifC10(t *testing.T) {
 
 		stats.Add("ref_catches", m.caught)
 		stats.Add("ref_recovers", m.recovered)
+		stats.Add("ref_catch_left_by_break_continue", m.catchLeft)
+
+		if m.caughtAfterLeft > 0 {
+			stats.Inc("ref_catch_after_catch_left")
+		}
 
 		if m.panicInDefer {
 			stats.Inc("ref_panic_in_defer")
